@@ -61,6 +61,12 @@ def validate_ts_where_condition(op, allowed_columns, allow_and=True):
         raise PlanningException(
             f'For time series predictors only the following operations are allowed in WHERE: {str(allowed_ops)}, found instead: {str(op)}.')
 
+    if op.op == 'and':
+        for arg in op.args:
+            if not isinstance(arg, Operation):
+                raise PlanningException(
+                    f'For time series predictors every operand of AND in WHERE must be a condition, found instead: {str(arg)}.')
+
     for arg in op.args:
         if isinstance(arg, Identifier):
             if arg.parts[-1].lower() not in allowed_columns:
